@@ -1457,4 +1457,509 @@ Proof.
     destruct (Nat.eqb_spec e' e) as [->|_]; [contradiction|exact Hlt].
 Qed.
 
+(* ---- top level *)
+Definition topstep (s s' : sstate) : Prop := ext s s' /\ keeps s s' /\ (Ranked s -> Ranked s').
+
+Lemma topstep_refl s : topstep s s.
+Proof. split; [apply ext_refl|]. split; [apply keeps_refl|tauto]. Qed.
+Lemma topstep_trans a b c : topstep a b -> topstep b c -> topstep a c.
+Proof.
+  intros [E1 [K1 R1]] [E2 [K2 R2]]. split; [eapply ext_trans; eassumption|].
+  split; [eapply keeps_trans; eassumption|tauto].
+Qed.
+
+Lemma done_of_ext i a b : ext a b -> done_of i a -> done_of i b.
+Proof. intros E D e He. apply (ext_done a b e E). apply D; exact He. Qed.
+
+Lemma rnd_top f st n s vs s' vs' :
+  rnd f st n (s, vs) = SOk (s', vs') -> topstep s s' /\ done_of n s'.
+Proof.
+  intros H. destruct (rnd_ok _ _ _ _ _ _ _ H) as [E [_ D]].
+  split; [|exact D]. split; [exact E|]. split; [apply (rnd_keeps _ _ _ _ _ _ _ H)|apply (rnd_ranked _ _ _ _ _ _ _ H)].
+Qed.
+
+Lemma loop_top : forall qf queue s found s' vs',
+  recompute_dirty_loop g w qf queue s found = SOk (s', vs') ->
+  topstep s s' /\ forall n, In n queue -> done_of n s'.
+Proof.
+  induction qf as [|qf IH]; intros queue s found s' vs' H; destruct queue as [|n queue];
+    cbn [recompute_dirty_loop] in H; try discriminate.
+  - inversion H; subst. split; [apply topstep_refl|intros n []].
+  - inversion H; subst. split; [apply topstep_refl|intros n []].
+  - destruct (rnd (scan_fuel g) [] n (s, [])) as [[s1 newv]|c|e|] eqn:Hv; try discriminate.
+    destruct (rnd_top _ _ _ _ _ _ _ Hv) as [T1 D1].
+    destruct (IH _ _ _ _ _ H) as [T2 D2].
+    split; [eapply topstep_trans; eassumption|].
+    intros m [<-|Hm].
+    + apply (done_of_ext n s1 s' (proj1 T2) D1).
+    + apply D2. apply in_or_app. left; exact Hm.
+Qed.
+
+Lemma bat_ok s p t s' p' :
+  builder_add_target g w s p t = ScanOk s' p' -> topstep s s' /\ done_of t s'.
+Proof.
+  intros H. pose proof (bat_result s p t) as Hb. rewrite H in Hb. destruct Hb as [vn Hb].
+  destruct (loop_top _ _ _ _ _ _ Hb) as [T D]. split; [exact T|apply D; left; reflexivity].
+Qed.
+
+Lemma bat_missing s p t m d :
+  builder_add_target g w s p t = ScanMissing m d ->
+  exists s' vn, recompute_dirty g w s t = SOk (s', vn).
+Proof.
+  unfold builder_add_target.
+  destruct (recompute_dirty g w s t) as [[s1 vn]|c|e|]; try discriminate.
+  intros _. exists s1, vn. reflexivity.
+Qed.
+
+Lemma add_targets_ok : forall targets s p s' p',
+  add_targets g w s p targets = ScanOk s' p' ->
+  topstep s s' /\ forall t, In t targets -> done_of t s'.
+Proof.
+  induction targets as [|t targets IH]; intros s p s' p' H; cbn [add_targets] in H.
+  - inversion H; subst. split; [apply topstep_refl|intros t []].
+  - destruct (builder_add_target g w s p t) as [c|m d|e| |s1 p1] eqn:Hb; try discriminate.
+    destruct (bat_ok _ _ _ _ _ Hb) as [T1 D1]. destruct (IH _ _ _ _ H) as [T2 D2].
+    split; [eapply topstep_trans; eassumption|].
+    intros x [<-|Hx]; [apply (done_of_ext t s1 s' (proj1 T2) D1)|apply D2; exact Hx].
+Qed.
+
+Lemma Ranked_init : Ranked (init_state g).
+Proof. exists (fun _ => 0), 0. intros e He. cbn in He. discriminate. Qed.
+
+(* what an accepted scan established: the Done statements are closed under "is an input of",
+   ranked by finish order (hence acyclic), contain the producers of the targets, and no manifest
+   input was dropped *)
+Theorem C17_complete_final targets s p :
+  scan g w targets = ScanOk s p ->
+  (exists rank K, ranked_by rank K s) /\
+  (forall t, In t targets -> done_of t s) /\
+  (forall e, incl (ei_ins (g_edge g e)) (ins_of s e)).
+Proof.
+  intros H. destruct (add_targets_ok _ _ _ _ _ H) as [[_ [K R]] D].
+  split; [apply R, Ranked_init|]. split; [exact D|]. intros e. apply (K e).
+Qed.
+
+(* a state like that cannot coexist with a reachable cycle of the manifest relation *)
+Lemma accepted_no_cycle targets s rank K c :
+  ranked_by rank K s ->
+  (forall t, In t targets -> done_of t s) ->
+  (forall e, incl (ei_ins (g_edge g e)) (ins_of s e)) ->
+  closed_walk_via g (manifest_ins g) c ->
+  (forall x, hd_error c = Some x -> reach_via g (manifest_ins g) targets x) ->
+  False.
+Proof.
+  intros HR HD HK Hc Hreach.
+  assert (Hdone : forall x, reach_via g (manifest_ins g) targets x -> done_of x s).
+  { intros x Hx. induction Hx as [t Ht|x y Hx IHx [ex [Hex Hin]]].
+    - apply HD; exact Ht.
+    - intros ey Hey. pose proof (IHx ex Hex) as Dex.
+      apply (proj2 (HR ex Dex) y ey); [apply HK; exact Hin|exact Hey]. }
+  set (insD := fun e => match mark_of s e with VisitDone => ins_of s e | _ => [] end).
+  assert (Hrk : ranked_via g insD rank).
+  { intros e i e' Hi He'. unfold insD in Hi. destruct (mark_of s e) eqn:Me; try destruct Hi.
+    apply (proj2 (HR e Me) i e' Hi He'). }
+  assert (Hwalk : forall l x, reach_via g (manifest_ins g) targets x ->
+                              walk_via g (manifest_ins g) (x :: l) -> walk_via g insD (x :: l)).
+  { induction l as [|y l IHl]; intros x Hx Hw; [apply walk_one|].
+    destruct (walk_cons_inv _ x y l Hw) as [[ex [Hex Hin]] Hrest].
+    apply walk_cons.
+    - exists ex. split; [exact Hex|]. unfold insD. rewrite (Hdone x Hx ex Hex). apply HK; exact Hin.
+    - apply IHl; [|exact Hrest]. apply (reach_step _ _ _ x y Hx). exists ex. split; assumption. }
+  destruct Hc as [Hw [Hlen Hhd]].
+  destruct c as [|x l]; [cbn in Hlen; lia|].
+  apply (ranked_acyclic insD rank Hrk (x :: l)).
+  split; [apply Hwalk; [apply Hreach; reflexivity|exact Hw]|]. split; assumption.
+Qed.
+
+(* C17, completeness: a cycle of the manifest relation among what the targets need (not through
+   validations) is never accepted *)
+Theorem C17_complete targets c :
+  closed_walk_via g (manifest_ins g) c ->
+  (forall x, hd_error c = Some x -> reach_via g (manifest_ins g) targets x) ->
+  forall s p, scan g w targets <> ScanOk s p.
+Proof.
+  intros Hc Hreach s p H.
+  destruct (C17_complete_final targets s p H) as [[rank [K HR]] [HD HK]].
+  apply (accepted_no_cycle targets s rank K c HR HD HK Hc Hreach).
+Qed.
+
+(* ... and with one target the answer is the cycle diagnosis itself (or a broken depfile met
+   before the cycle was closed) *)
+Theorem C17_complete_single t c :
+  wf_graph g ->
+  closed_walk_via g (manifest_ins g) c ->
+  (forall x, hd_error c = Some x -> reach_via g (manifest_ins g) [t] x) ->
+  (exists c', scan g w [t] = ScanCycle c') \/ (exists e, scan g w [t] = ScanLoadErr e).
+Proof.
+  intros Hwf Hc Hreach.
+  pose proof (scan_fuel_sufficient Hwf [t]) as Hfuel.
+  pose proof (C17_complete [t] c Hc Hreach) as Hno.
+  unfold scan in *. cbn [add_targets] in *.
+  destruct (builder_add_target g w (init_state g) init_plan t) as [c'|m d|e| |s1 p1] eqn:Hb.
+  - left. exists c'. reflexivity.
+  - exfalso. destruct (bat_missing _ _ _ _ _ Hb) as [s' [vn Hr]].
+    destruct (loop_top _ _ _ _ _ _ Hr) as [[_ [K R]] D].
+    destruct (R Ranked_init) as [rank [K0 HR]].
+    apply (accepted_no_cycle [t] s' rank K0 c HR); [|intros e; apply (K e)|exact Hc|exact Hreach].
+    intros x [<-|[]]. apply D. left; reflexivity.
+  - right. exists e. reflexivity.
+  - congruence.
+  - exfalso. apply (Hno s1 p1). reflexivity.
+Qed.
+
+(* for any list of targets the result is one of the three diagnoses *)
+Theorem C17_complete_kinds targets c :
+  wf_graph g ->
+  closed_walk_via g (manifest_ins g) c ->
+  (forall x, hd_error c = Some x -> reach_via g (manifest_ins g) targets x) ->
+  match scan g w targets with
+  | ScanCycle _ | ScanLoadErr _ | ScanMissing _ _ => True
+  | _ => False
+  end.
+Proof.
+  intros Hwf Hc Hreach.
+  pose proof (scan_fuel_sufficient Hwf targets) as Hfuel.
+  pose proof (C17_complete targets c Hc Hreach) as Hno.
+  destruct (scan g w targets) as [c'|m d|e| |s1 p1]; try exact I; [congruence|].
+  apply (Hno s1 p1). reflexivity.
+Qed.
+
 End Proofs.
+
+(* ================================================================== concrete graphs *)
+(* a validation target that depends on the statement requesting it is NOT a cycle:
+     build a: r s |@ v        (nodes: a = 0, v = 1, s = 2)
+     build v: r a                                                                  *)
+Module ValidationExample.
+  Definition e0 := mkEdge [2] 0 0 [0] [1] false false false DepsNone 7%N.
+  Definition e1 := mkEdge [0] 0 0 [1] [] false false false DepsNone 8%N.
+  Definition dummy := mkEdge [] 0 0 [] [] false false false DepsNone 0%N.
+  Definition g := mkGraph 2 (fun e => match e with 0 => e0 | 1 => e1 | _ => dummy end)
+                          (fun n => match n with 0 => Some 0 | 1 => Some 1 | _ => None end)
+                          (fun _ => false).
+  Definition w := mkWorld (fun n => match n with 2 => 5%Z | _ => 0%Z end)
+                          (fun _ => None) (fun _ => None) (fun _ => DfMissing).
+
+  Lemma wf : wf_graph g.
+  Proof. intros n e H. destruct n as [|[|n]]; cbn in H; inversion H; subst; cbn; lia. Qed.
+
+  Lemma acyc : acyclic g w.
+  Proof.
+    apply (ranked_acyclic g (pot_ins g w) (fun e => e)).
+    intros e i e' Hi Hp. destruct e as [|[|e]]; cbn in Hi.
+    - destruct Hi as [<-|[]]. cbn in Hp. discriminate.
+    - destruct Hi as [<-|[]]. cbn in Hp. inversion Hp; subst. lia.
+    - destruct Hi.
+  Qed.
+
+  (* both statements are scanned and wanted: a as the target, v as a validation *)
+  Lemma accepted :
+    match scan g w [0] with
+    | ScanOk s p =>
+      es_mark (st_edge s 0) = VisitDone /\ es_mark (st_edge s 1) = VisitDone /\
+      p_want p 0 = Some WantToStart /\ p_want p 1 = Some WantToStart /\ p_wanted p = 2
+    | _ => False
+    end.
+  Proof. vm_compute. repeat split; reflexivity. Qed.
+End ValidationExample.
+
+(* a real cycle written in the manifest:  build a: r b ; build b: r a   (a = 0, b = 1) *)
+Module CycleExample.
+  Definition e0 := mkEdge [1] 0 0 [0] [] false false false DepsNone 7%N.
+  Definition e1 := mkEdge [0] 0 0 [1] [] false false false DepsNone 8%N.
+  Definition dummy := mkEdge [] 0 0 [] [] false false false DepsNone 0%N.
+  Definition g := mkGraph 2 (fun e => match e with 0 => e0 | 1 => e1 | _ => dummy end)
+                          (fun n => match n with 0 => Some 0 | 1 => Some 1 | _ => None end)
+                          (fun _ => false).
+  Definition w := mkWorld (fun _ => 0%Z) (fun _ => None) (fun _ => None) (fun _ => DfMissing).
+
+  Lemma wf : wf_graph g.
+  Proof. intros n e H. destruct n as [|[|n]]; cbn in H; inversion H; subst; cbn; lia. Qed.
+
+  Lemma cyc : closed_walk_via g (manifest_ins g) [0; 1; 0].
+  Proof.
+    split; [|split; [cbn; lia|reflexivity]].
+    apply walk_cons; [exists 0; split; [reflexivity|left; reflexivity]|].
+    apply walk_cons; [exists 1; split; [reflexivity|left; reflexivity]|apply walk_one].
+  Qed.
+
+  Lemma reported : scan g w [0] = ScanCycle [0; 1; 0].
+  Proof. vm_compute. reflexivity. Qed.
+End CycleExample.
+
+(* The caveat.  A cycle closed only by a deps-log record of a statement that is ALREADY DIRTY:
+     build o: cc s   (deps = gcc; the deps log says: o read x)      (o = 0, x = 1, s = 2)
+     build x: gen o
+   s is newer than o, so o is dirty before its deps are looked at; LoadDepsTry only probes the
+   record, x is never spliced into o's inputs, and the scan accepts the graph. *)
+Module DirtyDepsCycle.
+  Definition e0 := mkEdge [2] 0 0 [0] [] false false false DepsLog 7%N.
+  Definition e1 := mkEdge [0] 0 0 [1] [] false false false DepsNone 8%N.
+  Definition dummy := mkEdge [] 0 0 [] [] false false false DepsNone 0%N.
+  Definition g := mkGraph 2 (fun e => match e with 0 => e0 | 1 => e1 | _ => dummy end)
+                          (fun n => match n with 0 => Some 0 | 1 => Some 1 | _ => None end)
+                          (fun _ => false).
+  Definition w := mkWorld (fun n => match n with 0 => 5%Z | 1 => 6%Z | 2 => 10%Z | _ => 0%Z end)
+                          (fun n => match n with 0 => Some (7%N, 5%Z) | 1 => Some (8%N, 6%Z) | _ => None end)
+                          (fun n => match n with 0 => Some (5%Z, [1]) | _ => None end)
+                          (fun _ => DfMissing).
+
+  Lemma wf : wf_graph g.
+  Proof. intros n e H. destruct n as [|[|n]]; cbn in H; inversion H; subst; cbn; lia. Qed.
+
+  (* o -> x (recorded), x -> o (manifest) *)
+  Lemma cyc : closed_walk g w [0; 1; 0].
+  Proof.
+    split; [|split; [cbn; lia|reflexivity]].
+    apply walk_cons; [exists 0; split; [reflexivity|right; left; reflexivity]|].
+    apply walk_cons; [exists 1; split; [reflexivity|left; reflexivity]|apply walk_one].
+  Qed.
+
+  Lemma accepted :
+    match scan g w [1] with
+    | ScanOk s p => p_want p 0 = Some WantToStart /\ p_want p 1 = Some WantToStart /\
+                    es_ins (st_edge s 0) = [2]
+    | _ => False
+    end.
+  Proof. vm_compute. repeat split; reflexivity. Qed.
+
+  (* the same record IS seen when o is clean (s older than o): the cycle is diagnosed *)
+  Definition w_clean := mkWorld (fun n => match n with 0 => 5%Z | 1 => 6%Z | 2 => 3%Z | _ => 0%Z end)
+                                (w_blog w) (w_dlog w) (w_depfile w).
+  Lemma diagnosed_when_clean : scan g w_clean [1] = ScanCycle [1; 0; 1].
+  Proof. vm_compute. reflexivity. Qed.
+End DirtyDepsCycle.
+
+(* the full statement over recorded deps is FALSE of the faithful model *)
+Definition C17_complete_recorded_full : Prop :=
+  forall g w targets c,
+    closed_walk g w c ->
+    (forall x, hd_error c = Some x -> reach_via g (pot_ins g w) targets x) ->
+    forall s p, scan g w targets <> ScanOk s p.
+
+Theorem C17_dirty_edge_deps_cycle_refuted : ~ C17_complete_recorded_full.
+Proof.
+  intros H.
+  pose proof (H DirtyDepsCycle.g DirtyDepsCycle.w [1] [0; 1; 0] DirtyDepsCycle.cyc) as H1.
+  pose proof DirtyDepsCycle.accepted as Ha.
+  destruct (scan DirtyDepsCycle.g DirtyDepsCycle.w [1]) as [c|m d|e| |s p] eqn:Hs; try contradiction.
+  apply (H1) with (s := s) (p := p); [|reflexivity].
+  intros x Hx. inversion Hx; subst x.
+  apply (reach_step _ _ _ 1 0); [apply reach_target; left; reflexivity|].
+  exists 1. split; [reflexivity|left; reflexivity].
+Qed.
+
+(* ================================================================== Part 5: the dirty flags *)
+Section SpecProofs.
+Variable g : graph.
+Variable w : world.
+Local Open Scope Z_scope.
+
+Notation mark_of s e := (es_mark (st_edge s e)).
+Notation ins_of s e := (es_ins (st_edge s e)).
+Notation rnd := (recompute_node_dirty g w).
+Notation nd s n := (st_node s n).
+
+(* ---- node updates *)
+Lemma upd_node_same s n v : nd (upd_node s n v) n = v.
+Proof. cbn [upd_node st_node]. rewrite Nat.eqb_refl. reflexivity. Qed.
+Lemma upd_node_other s n v n' : n' <> n -> nd (upd_node s n v) n' = nd s n'.
+Proof. intros H. cbn [upd_node st_node]. destruct (Nat.eqb_spec n' n); [contradiction|reflexivity]. Qed.
+
+(* the state of a node right after Node::Stat, not dirty *)
+Definition statted (s : sstate) (o : node) : Prop :=
+  ns_mtime (nd s o) = w_mtime w o /\
+  ns_exists (nd s o) = (if Z.eqb (w_mtime w o) 0 then ExMissing else ExExists) /\
+  ns_dirty (nd s o) = false.
+
+Lemma stat_other s n n' : n' <> n -> nd (stat_if_necessary w s n) n' = nd s n'.
+Proof.
+  intros H. unfold stat_if_necessary. destruct (n_known (nd s n)); [reflexivity|].
+  apply upd_node_other; exact H.
+Qed.
+
+Lemma stat_known s n : n_known (nd s n) = true -> stat_if_necessary w s n = s.
+Proof. intros H. unfold stat_if_necessary. rewrite H. reflexivity. Qed.
+
+Lemma statted_known s o : statted s o -> n_known (nd s o) = true.
+Proof. intros [_ [H _]]. unfold n_known. rewrite H. destruct (Z.eqb _ _); reflexivity. Qed.
+
+Lemma stat_keeps_statted s n o : statted s o -> statted (stat_if_necessary w s n) o.
+Proof.
+  intros H. destruct (Nat.eq_dec o n) as [->|Hne].
+  - rewrite (stat_known s n (statted_known s n H)). exact H.
+  - unfold statted. rewrite (stat_other s n o Hne). exact H.
+Qed.
+
+Lemma stat_init s n : nd s n = init_nstate -> statted (stat_if_necessary w s n) n.
+Proof.
+  intros H. unfold stat_if_necessary. rewrite H. cbn [n_known init_nstate ns_exists].
+  unfold statted. rewrite upd_node_same. cbn [ns_mtime ns_exists ns_dirty]. auto.
+Qed.
+
+Lemma stat_outputs_other outs : forall s n, ~ In n outs -> nd (stat_outputs w s outs) n = nd s n.
+Proof.
+  unfold stat_outputs. induction outs as [|o outs IH]; intros s n Hn; cbn [fold_left]; [reflexivity|].
+  rewrite IH by (intros H; apply Hn; right; exact H).
+  apply stat_other. intros ->. apply Hn. left; reflexivity.
+Qed.
+
+Lemma stat_outputs_keeps outs : forall s o, statted s o -> statted (stat_outputs w s outs) o.
+Proof.
+  unfold stat_outputs. induction outs as [|a outs IH]; intros s o H; cbn [fold_left]; [exact H|].
+  apply IH. apply stat_keeps_statted. exact H.
+Qed.
+
+Lemma stat_outputs_statted outs : forall s o,
+  In o outs -> (forall o', In o' outs -> nd s o' = init_nstate \/ statted s o') ->
+  statted (stat_outputs w s outs) o.
+Proof.
+  induction outs as [|a outs IH]; intros s o Ho Hall; [destruct Ho|].
+  change (stat_outputs w s (a :: outs)) with (stat_outputs w (stat_if_necessary w s a) outs).
+  assert (Ha : statted (stat_if_necessary w s a) a).
+  { destruct (Hall a (or_introl eq_refl)) as [Hi|Hs]; [apply stat_init; exact Hi|apply stat_keeps_statted; exact Hs]. }
+  destruct (Nat.eq_dec o a) as [->|Hne].
+  - apply stat_outputs_keeps. exact Ha.
+  - destruct Ho as [->|Ho]; [contradiction|]. apply IH; [exact Ho|].
+    intros o' Ho'. destruct (Nat.eq_dec o' a) as [->|Hne']; [right; exact Ha|].
+    destruct (Hall o' (or_intror Ho')) as [Hi|Hs].
+    + left. rewrite stat_other by exact Hne'. exact Hi.
+    + right. apply stat_keeps_statted. exact Hs.
+Qed.
+
+Lemma mark_outputs_dirty_props outs : forall s,
+  (forall n, ns_mtime (nd (mark_outputs_dirty s outs) n) = ns_mtime (nd s n) /\
+             ns_exists (nd (mark_outputs_dirty s outs) n) = ns_exists (nd s n)) /\
+  (forall n, ~ In n outs -> nd (mark_outputs_dirty s outs) n = nd s n) /\
+  (forall o, In o outs \/ ns_dirty (nd s o) = true -> ns_dirty (nd (mark_outputs_dirty s outs) o) = true).
+Proof.
+  unfold mark_outputs_dirty. induction outs as [|a outs IH]; intros s; cbn [fold_left].
+  - split; [intros n; split; reflexivity|]. split; [reflexivity|]. intros o [[]|H]; exact H.
+  - destruct (IH (set_dirty s a true)) as [A [B C]].
+    assert (Hset : forall n, ns_mtime (nd (set_dirty s a true) n) = ns_mtime (nd s n) /\
+                             ns_exists (nd (set_dirty s a true) n) = ns_exists (nd s n)).
+    { intros n. unfold set_dirty. destruct (Nat.eq_dec n a) as [->|Hne].
+      - rewrite upd_node_same. split; reflexivity.
+      - rewrite upd_node_other by exact Hne. split; reflexivity. }
+    split; [|split].
+    + intros n. destruct (A n) as [A1 A2]. destruct (Hset n) as [H1 H2]. split; congruence.
+    + intros n Hn. rewrite B by (intros H; apply Hn; right; exact H).
+      unfold set_dirty. apply upd_node_other. intros ->. apply Hn. left; reflexivity.
+    + intros o Ho. apply C. destruct (Nat.eq_dec o a) as [->|Hne].
+      * right. unfold set_dirty. rewrite upd_node_same. reflexivity.
+      * destruct Ho as [[->|Ho]|Ho]; [contradiction|left; exact Ho|].
+        right. unfold set_dirty. rewrite upd_node_other by exact Hne. exact Ho.
+Qed.
+
+Lemma st_node_finish_edge e s d :
+  (forall n, ns_mtime (nd (finish_edge g s e d) n) = ns_mtime (nd s n) /\
+             ns_exists (nd (finish_edge g s e d) n) = ns_exists (nd s n)) /\
+  (forall n, ~ In n (edge_outs g e) -> nd (finish_edge g s e d) n = nd s n) /\
+  (d = false -> forall n, nd (finish_edge g s e d) n = nd s n) /\
+  (d = true -> forall o, In o (edge_outs g e) -> ns_dirty (nd (finish_edge g s e d) o) = true).
+Proof.
+  unfold finish_edge. destruct d; cbn [andb].
+  - destruct (mark_outputs_dirty_props (edge_outs g e) s) as [A [B C]].
+    set (s1 := mark_outputs_dirty s (edge_outs g e)) in *.
+    assert (E : forall s2, st_node (set_mark (if negb (ei_phony (g_edge g e) && match ins_of s1 e with [] => true | _ => false end)
+                                            then set_ready s1 e false else s1) e VisitDone) = st_node s1).
+    { intros _. destruct (negb _); reflexivity. }
+    rewrite (E s). split; [exact A|]. split; [exact B|]. split; [discriminate|].
+    intros _ o Ho. apply C. left; exact Ho.
+  - split; [intros n; split; reflexivity|]. split; [reflexivity|]. split; [reflexivity|discriminate].
+Qed.
+
+(* ---- which inputs of a range count (are not order-only) *)
+Fixpoint sel (len noo : nat) (idx : nat) (l : list node) : list node :=
+  match l with
+  | [] => []
+  | i :: l' => if is_order_only len noo idx then sel len noo (S idx) l' else i :: sel len noo (S idx) l'
+  end.
+
+Lemma sel_suffix len noo : forall l idx, (idx + length l = len)%nat ->
+  sel len noo idx l = if Nat.ltb len noo then l else firstn (len - noo - idx) l.
+Proof.
+  induction l as [|i l IH]; intros idx Hlen; cbn [sel].
+  - destruct (Nat.ltb len noo); [reflexivity|]. rewrite firstn_nil. reflexivity.
+  - cbn [length] in Hlen. rewrite IH by lia. unfold is_order_only.
+    destruct (Nat.ltb_spec len noo) as [Hlt|Hge]; [reflexivity|].
+    destruct (Nat.leb_spec (len - noo) idx) as [Hle|Hgt].
+    + replace (len - noo - S idx)%nat with 0%nat by lia. replace (len - noo - idx)%nat with 0%nat by lia.
+      reflexivity.
+    + replace (len - noo - idx)%nat with (S (len - noo - S idx)) by lia. reflexivity.
+Qed.
+
+Lemma sel_all len noo : forall l idx, (noo <= len)%nat -> (idx + length l <= len - noo)%nat ->
+  sel len noo idx l = l.
+Proof.
+  induction l as [|i l IH]; intros idx Hn Hlen; cbn [sel]; [reflexivity|].
+  cbn [length] in Hlen. unfold is_order_only.
+  destruct (Nat.ltb_spec len noo) as [Hlt|Hge]; [lia|].
+  destruct (Nat.leb_spec (len - noo) idx) as [Hle|Hgt]; [lia|].
+  rewrite IH by lia. reflexivity.
+Qed.
+
+(* ---- the second loop of RecomputeEdgesInputsDirty *)
+Definition lt_mri (s : sstate) (x : Z) (mri : option node) : Prop :=
+  match mri with None => False | Some m => x < ns_mtime (nd s m) end.
+
+Lemma eval_inputs_spec e : forall l idx s mri d s' mri' d',
+  eval_inputs g e l idx s mri d = (s', mri', d') ->
+  let picked := sel (length (ins_of s e)) (ei_noo (g_edge g e)) idx l in
+  (d' = true <-> d = true \/ exists i, In i picked /\ ns_dirty (nd s i) = true) /\
+  (forall x, lt_mri s x mri' <->
+             lt_mri s x mri \/ exists i, In i picked /\ ns_dirty (nd s i) = false /\ x < ns_mtime (nd s i)) /\
+  (forall m, mri' = Some m -> mri = Some m \/ (In m picked /\ ns_dirty (nd s m) = false)).
+Proof.
+  induction l as [|i l IH]; intros idx s mri d s' mri' d' H; cbn [eval_inputs] in H.
+  - inversion H; subst. cbn [sel]. split; [|split].
+    + split; [intros ->; left; reflexivity|intros [->|[i [[] _]]]; reflexivity].
+    + intros x. split; [intros Hx; left; exact Hx|intros [Hx|[i [[] _]]]; exact Hx].
+    + intros m Hm. left; exact Hm.
+  - set (s1 := match g_producer g i with
+               | Some ie => if es_ready (st_edge s ie) then s else set_ready s e false
+               | None => s end) in *.
+    assert (L1 : local e s s1).
+    { subst s1. destruct (g_producer g i) as [ie|]; [|apply local_refl].
+      destruct (es_ready (st_edge s ie)); [apply local_refl|apply local_set_ready]. }
+    assert (N1 : st_node s1 = st_node s).
+    { subst s1. destruct (g_producer g i) as [ie|]; [|reflexivity].
+      destruct (es_ready (st_edge s ie)); reflexivity. }
+    assert (I1 : ins_of s1 e = ins_of s e) by (apply (proj2 (proj2 L1))).
+    cbn [sel]. rewrite I1 in H.
+    destruct (is_order_only (length (ins_of s e)) (ei_noo (g_edge g e)) idx).
+    + specialize (IH _ _ _ _ _ _ _ H). rewrite I1, N1 in IH. unfold lt_mri in *. rewrite N1 in IH. exact IH.
+    + destruct (ns_dirty (nd s1 i)) eqn:Di; rewrite N1 in Di.
+      * specialize (IH _ _ _ _ _ _ _ H). rewrite I1, N1 in IH. unfold lt_mri in *. rewrite N1 in IH.
+        destruct IH as [A [B C]]. split; [|split].
+        -- rewrite A. split.
+           ++ intros [_|[j [Hj Dj]]]; right; [exists i; split; [left; reflexivity|exact Di]|exists j; split; [right; exact Hj|exact Dj]].
+           ++ intros _. left; reflexivity.
+        -- intros x. rewrite B. split.
+           ++ intros [Hx|[j [Hj Hr]]]; [left; exact Hx|right; exists j; split; [right; exact Hj|exact Hr]].
+           ++ intros [Hx|[j [[<-|Hj] [Dj Hr]]]]; [left; exact Hx|congruence|right; exists j; split; [exact Hj|split; assumption]].
+        -- intros m Hm. destruct (C m Hm) as [Hc|[Hc Dc]]; [left; exact Hc|right; split; [right; exact Hc|exact Dc]].
+      * specialize (IH _ _ _ _ _ _ _ H). rewrite I1, N1 in IH. unfold lt_mri in *. rewrite N1 in IH.
+        destruct IH as [A [B C]].
+        assert (Hnew : forall x, match ScanDefs.newer s1 i mri with None => False | Some m => x < ns_mtime (nd s m) end <->
+                                 (match mri with None => False | Some m => x < ns_mtime (nd s m) end \/ x < ns_mtime (nd s i))).
+        { intros x. unfold ScanDefs.newer. rewrite N1. destruct mri as [m|]; [|tauto].
+          destruct (Z.gtb_spec (ns_mtime (nd s i)) (ns_mtime (nd s m))); lia. }
+        split; [|split].
+        -- rewrite A. split.
+           ++ intros [Hd|[j [Hj Dj]]]; [left; exact Hd|right; exists j; split; [right; exact Hj|exact Dj]].
+           ++ intros [Hd|[j [[<-|Hj] Dj]]]; [left; exact Hd|congruence|right; exists j; split; assumption].
+        -- intros x. rewrite B, Hnew. split.
+           ++ intros [[Hx|Hx]|[j [Hj Hr]]];
+                [left; exact Hx|right; exists i; split; [left; reflexivity|split; assumption]
+                 |right; exists j; split; [right; exact Hj|exact Hr]].
+           ++ intros [Hx|[j [[<-|Hj] [Dj Hr]]]];
+                [left; left; exact Hx|left; right; exact Hr|right; exists j; split; [exact Hj|split; assumption]].
+        -- intros m Hm. destruct (C m Hm) as [Hc|[Hc Dc]].
+           ++ unfold ScanDefs.newer in Hc. destruct mri as [m0|].
+              ** destruct (Z.gtb _ _); inversion Hc; subst; [right; split; [left; reflexivity|exact Di]|left; reflexivity].
+              ** inversion Hc; subst. right; split; [left; reflexivity|exact Di].
+           ++ right; split; [right; exact Hc|exact Dc].
+Qed.
+
+End SpecProofs.
